@@ -148,6 +148,9 @@ def run(ctx):  # noqa: C901
 
     # ---- symmetric extension hierarchy -----------------------------------------------------------------
     sh = m.func("symmetric_extension_hierarchy.symmetric_extension_hierarchy")
+    # the extension variables go through toqito's partial_trace / partial_transpose Variable branch: the two conversion helpers
+    from .C02 import _helpers
+    _helpers(ctx)
     r_effect_free(ctx, sh, ["states", "probs", "dim"])
     from ..rules import r_parallel_families
     r_parallel_families(ctx, sh, ["states", "probs"])
